@@ -16,7 +16,7 @@ dynamically there.
 -/
 noncomputable section
 namespace Pymeeus.C09
-open Pymeeus Pymeeus.PR Pymeeus.GenR Pymeeus.Refine.Vsop Pymeeus.Refine.SunEarth Pymeeus.Spec
+open Pymeeus Pymeeus.PR Pymeeus.GenR Pymeeus.GenR.Helio Pymeeus.Refine.Vsop Pymeeus.Refine.SunEarth Pymeeus.Spec
 
 /-! ## Elongation -/
 
